@@ -199,6 +199,32 @@ func c20Dropped(c *Ctx, p *Prog) {
 					}
 				}
 			}
+			// rolling a transaction back in a deferred closure that first tests that the transaction is still open: the
+			// path already fails (or the transaction was committed and the variable cleared), wherever that code lives
+			if name == "(*database/sql.Tx).Rollback" && fn.Parent() != nil {
+				deferred := false
+				eachInstr(fn.Parent(), func(_ *ssa.BasicBlock, in2 ssa.Instruction) {
+					if d, ok := in2.(*ssa.Defer); ok {
+						if mc, ok := d.Call.Value.(*ssa.MakeClosure); ok && mc.Fn == ssa.Value(fn) {
+							deferred = true
+						}
+					}
+				})
+				guarded := false
+				for _, f := range factsAt(in.Block()) {
+					if bo, ok := f.Cond.(*ssa.BinOp); ok {
+						if kc, isK := bo.Y.(*ssa.Const); isK && kc.IsNil() && ((bo.Op == token.NEQ && f.True) || (bo.Op == token.EQL && !f.True)) {
+							guarded = true
+						}
+					}
+				}
+				if deferred && guarded {
+					nAllowed++
+					c.Allow(R, name+" in "+fnName(fn), "deferred rollback of a transaction that is still open: the path already fails")
+					c.OK(R, k, p.pos(in.Pos()), "clean-up call: deferred rollback under 'tx != nil'")
+					return
+				}
+			}
 			for _, a := range allows {
 				if name == a.callee && strings.HasPrefix(fnName(fn), a.in) {
 					nAllowed++
@@ -1093,8 +1119,29 @@ func c20NewUpload(c *Ctx, p *Prog) {
 		c.Undecided(R, "anchor:DB.NewUpload", "", "method not found")
 		return
 	}
-	site := p.pos(fn.Pos())
 	txF := p.Field("storage/db", "Upload", "tx")
+	// NewUpload may delegate: the function that allocates the ID (it runs the insertUpload statement) and the function
+	// that opens the record transaction (it stores Upload.tx) are found by what they do
+	entry := fn
+	var recFn *ssa.Function
+	for _, g := range p.Funcs("storage/db") {
+		if g.Parent() != nil {
+			continue
+		}
+		eachInstr(g, func(_ *ssa.BasicBlock, in ssa.Instruction) {
+			if call, ok := in.(*ssa.Call); ok && objIs(calleeObj(&call.Call), "database/sql", "Tx", "Stmt") {
+				if f, _ := loadOfField(call.Call.Args[1]); f != nil && f.Name() == "insertUpload" {
+					fn = g
+				}
+			}
+		})
+		if len(storesToField(g, txF)) > 0 && (g == entry || calledOnlyFrom(g, p.Funcs("storage/db"), func(h *ssa.Function) bool { return h == entry || h.Name() == "ReplaceUpload" })) {
+			if recFn == nil || g == entry {
+				recFn = g
+			}
+		}
+	}
+	site := p.pos(fn.Pos())
 	// Begin calls
 	var begins []*ssa.Call
 	eachInstr(fn, func(_ *ssa.BasicBlock, in ssa.Instruction) {
@@ -1164,12 +1211,40 @@ func c20NewUpload(c *Ctx, p *Prog) {
 	// store to Upload.tx
 	okSep := false
 	var utx ssa.Value
-	for _, st := range storesToField(fn, txF) {
-		utx = txRoot(st.Val)
+	if recFn != nil {
+		for _, st := range storesToField(recFn, txF) {
+			utx = txRoot(st.Val)
+		}
 	}
 	if utx != nil && idTx != nil && utx != idTx {
-		if call, ok := utx.(*ssa.Call); ok && commit != nil && instrDominates(commit, call) {
-			okSep = true
+		if call, ok := utx.(*ssa.Call); ok && commit != nil {
+			switch {
+			case recFn == fn:
+				okSep = instrDominates(commit, call)
+			default:
+				// split form: the record transaction is begun in its own function, which the entry point calls only
+				// after the ID allocation returned without error; and the allocation commits before every success return
+				var idCall, recCall ssa.Instruction
+				eachInstr(entry, func(_ *ssa.BasicBlock, in ssa.Instruction) {
+					if ci, ok := in.(ssa.CallInstruction); ok {
+						if ci.Common().StaticCallee() == fn {
+							idCall = in
+						}
+						if ci.Common().StaticCallee() == recFn {
+							recCall = in
+						}
+					}
+				})
+				commitsFirst := true
+				for _, b := range fn.Blocks {
+					if ret, ok := b.Instrs[len(b.Instrs)-1].(*ssa.Return); ok && len(ret.Results) > 0 {
+						if k, isK := retLast(ret).(*ssa.Const); isK && k.IsNil() && !(commit.Block() == b || commit.Block().Dominates(b)) {
+							commitsFirst = false
+						}
+					}
+				}
+				okSep = idCall != nil && recCall != nil && instrDominates(idCall, recCall) && commitsFirst && objIs(calleeObj(&call.Call), "database/sql", "DB", "Begin")
+			}
 		}
 	}
 	c.Check(okSep, R, "NewUpload:separate-record-tx", site, "records use a separate transaction begun after the ID was committed",
